@@ -10,12 +10,12 @@ VARIABLES chunk, done
 GChunks == {c \in Chunks(Size) : Only = {} \/ c[1] \in Only} \cup (IF NCombo > 0 THEN {<<"combo", "-", Size>>} ELSE {})
 Vec(I) == [inst |-> I, verdict |-> Verdict(I), schema |-> Schema(I), judgeSchema |-> SchemaJudged(I), judgeVerdict |-> JudgeVerdict(I),
            cyclic |-> (IncludeCycle(I) \/ ImportCycle(I) \/ DefCycle(I)), defects |-> SetToSeq(Defects(I))]
-Pick(S) == IF NSample = 0 \/ Cardinality(S) <= NSample THEN S ELSE {RandomElement(S) : i \in 1..NSample}
+PickN(S, n) == IF n = 0 \/ Cardinality(S) <= n THEN S ELSE {RandomElement(S) : i \in 1..n}
 FileOf(c) == "cvec_" \o c[1] \o "_" \o c[2] \o ".ndjson"
 \* (the mechanism's variables are not used by the generator)
 GInit == /\ chunk \in GChunks /\ done = FALSE
          /\ inst = Base /\ phase = "pick" /\ todo = {} /\ order = << >> /\ pos = 1 /\ trees = << >>
          /\ out = [verdict |-> "none", schema |-> {}]
 GNext == /\ ~done /\ done' = TRUE /\ UNCHANGED <<chunk, pvars>>
-         /\ ndJsonSerialize(FileOf(chunk), SetToSeq({Vec(I) : I \in (IF chunk[1] = "combo" THEN Combos(NCombo, AllPlaces(Size)) ELSE Pick(Chunk(chunk)))}))
+         /\ ndJsonSerialize(FileOf(chunk), SetToSeq({Vec(I) : I \in (IF chunk[1] = "combo" THEN Combos(NCombo, AllPlaces(Size)) ELSE PickN(Chunk(chunk), IF chunk[2] = "twin" THEN 3 * NSample ELSE NSample))}))
 =============================================================================
